@@ -180,6 +180,9 @@ func c19Stmt(r *Rng, c int, ro bool, scoped bool) Stmt {
 func genC19(seed uint64, i int, tier string) *Scenario {
 	r := NewRng(seed)
 	n := pick(r, []int{2, 3, 4, 8, 16})
+	if r.Chance(0.02) {
+		n = pick(r, []int{17, 24, 40}) // more goroutines than any per-CPU or 16-slot structure
+	}
 	topo := pick(r, []string{TopoPrivate, TopoSharedRO, TopoSharedRW, TopoSharedRW, TopoContended})
 	sc := &Scenario{Topology: topo, Cfg: Config{Batch: pickBatch(r), Cache: r.Bool(), Alias: r.Chance(0.3), Lazy: r.Chance(0.3), Bind: r.Bool()}}
 	for c := 0; c < n; c++ {
@@ -196,6 +199,9 @@ func genC19(seed uint64, i int, tier string) *Scenario {
 	nst := pick(r, []int{6, 8, 12, 20, 30})
 	if n >= 8 && nst > 12 {
 		nst = 12
+	}
+	if n > 16 {
+		nst = 6
 	}
 	// statements with byte-identical text in several clients (state keyed by
 	// query text — plan/AST/result caches — is only shared then); not in the
